@@ -874,5 +874,66 @@ func (e *Eng) declPkg() string {
 func (e *Eng) bindArgTexts(env map[string]*Val, call *ast.CallExpr) {
 	for i, a := range call.Args {
 		env[fmt.Sprintf("argtext%d", i)] = scalar(e.strLit(e.srcFull(a)), "Str", types.Typ[types.String])
+		// argparamN: the argument is (the address of) a path p.f.g rooted in a PARAMETER of the function or literal
+		// under verification - a rename-proof way of saying "its own field set, not a captured one"
+		// argpathN: the selector path after the root (".Invalids")
+		x := ast.Unparen(a)
+		if u, ok := x.(*ast.UnaryExpr); ok && u.Op == token.AND {
+			x = ast.Unparen(u.X)
+		}
+		path := ""
+		for {
+			if sel, ok := x.(*ast.SelectorExpr); ok {
+				path = "." + sel.Sel.Name + path
+				x = ast.Unparen(sel.X)
+				continue
+			}
+			break
+		}
+		isParam := false
+		if id, ok := x.(*ast.Ident); ok {
+			if obj := e.info.ObjectOf(id); obj != nil {
+				ft := e.fnType()
+				if ft != nil && ft.Params != nil {
+					for _, f := range ft.Params.List {
+						for _, n := range f.Names {
+							if e.info.ObjectOf(n) == obj {
+								isParam = true
+							}
+						}
+					}
+				}
+			}
+		}
+		// arglocalN: the root variable is declared inside the function or literal under verification (parameters
+		// included): it lives for one call only
+		isLocal := false
+		if id, ok := x.(*ast.Ident); ok {
+			if obj := e.info.ObjectOf(id); obj != nil {
+				lo, hi := e.fnBody().Pos(), e.fnBody().End()
+				if e.lit != nil {
+					lo = e.lit.Pos()
+				} else if e.fn != nil {
+					lo = e.fn.Pos()
+				}
+				isLocal = obj.Pos() >= lo && obj.Pos() < hi
+			}
+		}
+		env[fmt.Sprintf("arglocal%d", i)] = scalar(fmt.Sprint(isLocal), "Bool", nil)
+		// argownaddrN: the argument is literally &v.path for a non-pointer variable v declared inside the unit: the
+		// address of storage that belongs to this call
+		own := false
+		if u, ok := ast.Unparen(a).(*ast.UnaryExpr); ok && u.Op == token.AND && isLocal {
+			if id, ok := x.(*ast.Ident); ok {
+				if obj := e.info.ObjectOf(id); obj != nil {
+					if _, isPtr := obj.Type().Underlying().(*types.Pointer); !isPtr {
+						own = true
+					}
+				}
+			}
+		}
+		env[fmt.Sprintf("argownaddr%d", i)] = scalar(fmt.Sprint(own), "Bool", nil)
+		env[fmt.Sprintf("argparam%d", i)] = scalar(fmt.Sprint(isParam), "Bool", nil)
+		env[fmt.Sprintf("argpath%d", i)] = scalar(e.strLit(path), "Str", types.Typ[types.String])
 	}
 }
